@@ -339,6 +339,56 @@ func checkIter(w *World, op sim.Op, hist map[string][]mvEntry, plain bool, nkeys
 			curSeekTarget = target
 			compareRows(w, hist, sigBase(), ti > 0, exp, got, false, fmt.Sprintf("DB iterator opts{rev=%v keyonly=%v lower=%q(%v) upper=%q(%v)} seek=%q", reverse, keyOnly, lower, useLower, upper, useUpper, target))
 		}
+		// one DB iterator positioned several times (page, resume at last key, rewind)
+		it := w.DB.NewIterator(opt)
+		defer func() { _ = it.Close() }()
+		read := func(limit int) []iterRow {
+			var got []iterRow
+			for n := 0; it.Valid() && n < limit; it.Next() {
+				item := it.Item()
+				e := item.Entry()
+				if e.CF != kv.CFDefault {
+					continue
+				}
+				n++
+				val := e.Value
+				if vc, ok := item.(interface {
+					ValueCopy([]byte) ([]byte, error)
+				}); ok {
+					if v, err := vc.ValueCopy(nil); err == nil {
+						val = v
+					}
+				}
+				got = append(got, iterRow{key: string(e.Key), val: append([]byte(nil), val...), version: e.Version})
+			}
+			return got
+		}
+		reused := func(step string) map[string]string {
+			s := sigBase()
+			s["reused_iterator"] = step
+			return s
+		}
+		desc := fmt.Sprintf("reused DB iterator opts{rev=%v keyonly=%v lower=%q(%v) upper=%q(%v)}", reverse, keyOnly, lower, useLower, upper, useUpper)
+		page := 1 + int(op.D>>20)%3
+		it.Rewind()
+		got := read(page)
+		exp := seekModel(rows, nil, reverse, lower, upper, useLower, useUpper)
+		if len(exp) > page {
+			exp = exp[:page]
+		}
+		curSeekTarget = nil
+		compareRows(w, hist, reused("page"), false, exp, got, false, desc+" first page after Rewind")
+		if len(got) > 0 {
+			last := []byte(got[len(got)-1].key)
+			it.Seek(last)
+			g2 := read(200)
+			curSeekTarget = last
+			compareRows(w, hist, reused("resume"), true, seekModel(rows, last, reverse, lower, upper, useLower, useUpper), g2, false, fmt.Sprintf("%s Seek(%q) = last key handed out", desc, last))
+		}
+		it.Rewind()
+		g4 := read(200)
+		curSeekTarget = nil
+		compareRows(w, hist, reused("rewind"), false, seekModel(rows, nil, reverse, lower, upper, useLower, useUpper), g4, false, desc+" Rewind after use")
 		return
 	}
 	// transactional iterator
@@ -417,6 +467,60 @@ func checkIter(w *World, op sim.Op, hist map[string][]mvEntry, plain bool, nkeys
 			}
 		}
 	}
+	// One iterator object positioned several times: read a page, resume at the
+	// last key handed out, seek twice to one target, rewind. Every positioning
+	// call must behave like the same call on a fresh iterator.
+	it := txn.NewIterator(opt)
+	defer it.Close()
+	read := func(limit int) []iterRow {
+		var got []iterRow
+		for n := 0; it.Valid() && n < limit; it.Next() {
+			n++
+			item := it.Item()
+			e := item.Entry()
+			val, err := item.ValueCopy(nil)
+			if err != nil {
+				w.Res.Violate(w.step, "iter_value_error", sigBase(), "ValueCopy(%q): %v", e.Key, err)
+			}
+			got = append(got, iterRow{key: string(e.Key), val: append([]byte(nil), val...), version: e.Version})
+		}
+		return got
+	}
+	reused := func(step string) map[string]string {
+		s := sigBase()
+		s["reused_iterator"] = step
+		return s
+	}
+	desc := fmt.Sprintf("reused Txn iterator readTs=%d opts{rev=%v all=%v keyonly=%v since=%d lower=%q(%v) upper=%q(%v) prefix=%q(%v) pending=%d}",
+		readTs, reverse, all, keyOnly, since, lower, useLower, upper, useUpper, prefix, usePrefix, len(pending))
+	page := 1 + int(op.D>>20)%3
+	it.Rewind()
+	got := read(page)
+	exp := seekModel(rows, nil, reverse, lower, upper, useLower, useUpper)
+	if len(exp) > page {
+		exp = exp[:page]
+	}
+	curSeekTarget = nil
+	compareRows(w, hist, reused("page"), false, exp, got, true, desc+" first page after Rewind")
+	if len(got) > 0 {
+		last := []byte(got[len(got)-1].key)
+		it.Seek(last)
+		g2 := read(400)
+		curSeekTarget = last
+		compareRows(w, hist, reused("resume"), true, seekModel(rows, last, reverse, lower, upper, useLower, useUpper), g2, true, fmt.Sprintf("%s Seek(%q) = last key handed out", desc, last))
+	}
+	if t := targets[1]; len(t) > 0 {
+		it.Seek(t)
+		_ = read(1)
+		it.Seek(t)
+		g3 := read(400)
+		curSeekTarget = t
+		compareRows(w, hist, reused("seek_twice"), true, seekModel(rows, t, reverse, lower, upper, useLower, useUpper), g3, true, fmt.Sprintf("%s second Seek(%q)", desc, t))
+	}
+	it.Rewind()
+	g4 := read(400)
+	curSeekTarget = nil
+	compareRows(w, hist, reused("rewind"), false, seekModel(rows, nil, reverse, lower, upper, useLower, useUpper), g4, true, desc+" Rewind after use")
 }
 
 // curSeekTarget is the target of the probe being compared (single-threaded).
